@@ -296,19 +296,6 @@ TProj ==
   /\ projB' = [n \in DOMAIN projB \cup {<<R.node, R.chan>>} |-> IF n = <<R.node, R.chan>> THEN R ELSE projB[n]]
   \* at the end of a wound-down run nothing is left pending on an open channel
   /\ (R.final /\ ~Closed(EP(R.chan, R.node))) => G1(R.n_in = 0 /\ R.n_out = 0 /\ hs[EP(R.chan, R.node)] = {})
-  \* C10: every claim the durable monitor knew at a crash was reported again as PaymentSent
-  /\ R.final => G10(\A p \in fw.needSent : p[1] # R.node)
-  \* C02: at the end every preimage the node learned downstream was used upstream, and the node's
-  \* combined irrevocable balance is not below what it started with
-  /\ (R.final /\ ~AnyClosed(R.node)) =>
-        /\ G2(\A p \in fw.downFul : (p[1] = R.node /\ UpAdds(R.node, p[2]) # {}) => p \in fw.upClaimed)
-        \* money: over the HTLCs the node forwarded, what it was paid upstream covers what it paid downstream
-        /\ G2(LET n == R.node
-                   fwd == {a \in fw.adds : a.node = n /\ a.dir = "out" /\ UpAdds(n, a.hash) # {}}
-                   paidOut == FoldSet(LAMBDA a, s : s + (IF <<n, a.hash>> \in fw.downFul THEN a.amt \div 1000 ELSE 0), 0, fwd)
-                   gotIn == FoldSet(LAMBDA a, s : s + (IF <<n, a.hash>> \in fw.upClaimed /\ \E o \in fwd : o.hash = a.hash THEN a.amt \div 1000 ELSE 0), 0,
-                                    {a \in fw.adds : a.node = n /\ a.dir = "in"})
-               IN gotIn >= paidOut)
   \* the projection after a reload equals the one taken before it
   /\ (R.after_reload /\ <<R.node, R.chan>> \in DOMAIN projB) =>
         LET b == projB[<<R.node, R.chan>>] IN
@@ -336,7 +323,23 @@ TExtra ==
 TScorer == IsEvent("rt_scorer") /\ Stutter
            /\ G12(R.read_ok /\ R.answers_equal /\ R.truncated_refused)   \* (byte equality is not required: hash-map order)
 
-TraceNext == TScorer \/ TExtra \/ TOpen \/ TMsg \/ TDeliver \/ TPersist \/ TComplete \/ TSend \/ TDisconnect \/ TReconnect
+\* ---- end of a wound-down run, per node (also for nodes all of whose channels are closed)
+TFin ==
+  /\ IsEvent("fin") /\ Stutter
+  \* C10: every claim the durable monitor knew at a crash was reported again as PaymentSent
+  /\ G10(\A p \in fw.needSent : p[1] # R.node)
+  /\ ~AnyClosed(R.node) =>
+        \* C02: every preimage the node learned downstream was used upstream ...
+        /\ G2(\A p \in fw.downFul : (p[1] = R.node /\ UpAdds(R.node, p[2]) # {}) => p \in fw.upClaimed)
+        \* ... and over the HTLCs it forwarded, what it was paid upstream covers what it paid downstream
+        /\ G2(LET n == R.node
+                   fwd == {a \in fw.adds : a.node = n /\ a.dir = "out" /\ UpAdds(n, a.hash) # {}}
+                   paidOut == FoldSet(LAMBDA a, s : s + (IF <<n, a.hash>> \in fw.downFul THEN a.amt \div 1000 ELSE 0), 0, fwd)
+                   gotIn == FoldSet(LAMBDA a, s : s + (IF <<n, a.hash>> \in fw.upClaimed /\ \E o \in fwd : o.hash = a.hash THEN a.amt \div 1000 ELSE 0), 0,
+                                    {a \in fw.adds : a.node = n /\ a.dir = "in"})
+               IN gotIn >= paidOut)
+
+TraceNext == TFin \/ TScorer \/ TExtra \/ TOpen \/ TMsg \/ TDeliver \/ TPersist \/ TComplete \/ TSend \/ TDisconnect \/ TReconnect
              \/ TEvent \/ TOther \/ TMgrSnap \/ TCrash \/ TBroadcast \/ TProj
 
 TraceSpec == TraceInit /\ [][TraceNext]_tvars
